@@ -2,7 +2,7 @@
    model side of the correspondence lives here (in Gallina); the OCaml driver is generic. *)
 From Coq Require Import Strings.String.
 From ZipV Require Import Base.Bytes Base.Outcome Gen.GenLib Gen.TypesGen Model.Dos Extract.Obs.
-From ZipV Require Import Spec.PathSpec Model.Path Spec.Utf8 Model.Cp437 Gen.CompressionGen Model.Readers Model.Reader Spec.Crc32Spec Model.Stream Spec.Aes Spec.Sha1 Spec.Fs Model.Extract Model.Writer Model.Clones.
+From ZipV Require Import Spec.PathSpec Model.Path Spec.Utf8 Model.Cp437 Gen.CompressionGen Model.Readers Model.Reader Spec.Crc32Spec Model.Stream Spec.Aes Spec.Sha1 Spec.Fs Model.Extract Model.Writer Model.WriterCalls Model.Clones.
 From Coq Require Import ZArith.
 Open Scope string_scope.
 Open Scope N_scope.
@@ -419,18 +419,27 @@ Definition enc_of (tbl : list (N * Z * bytes * bytes)) (m : CompressionMethod) (
 Definition unit_res_obs (r : res unit) : obs := res_obs (fun _ => T "unit") r.
 Definition n_res_obs (r : res N) : obs := res_obs ON r.
 
+Definition wresult_obs (r : wresult) : obs :=
+  match r with
+  | RUnit r => unit_res_obs r
+  | RNum r => n_res_obs r
+  | RBytes r => res_obs OB r
+  end.
+
+(* every writer call goes through WriterCalls.do_call; a raw copy first resolves its source with the reader model *)
 Definition run_wop (tbl : list (N * Z * bytes * bytes)) (s : wstate) (op : wop) : wstate * obs :=
   let enc := enc_of tbl in
+  let call c := let '(s', r) := do_call enc crc32 s c in (s', wresult_obs r) in
   match op with
-  | OStartFile n o => let '(s', r) := start_file enc crc32 s n o in (s', unit_res_obs r)
-  | OWrite d => let '(s', r) := zw_write_all s d in (s', unit_res_obs r)
-  | OStartExtra n o => let '(s', r) := start_file_with_extra_data enc crc32 s n o in (s', n_res_obs r)
-  | OStartAligned n o a => let '(s', r) := start_file_aligned enc crc32 s n o a in (s', n_res_obs r)
-  | OEndLocal => let '(s', r) := end_local_start_central enc s in (s', n_res_obs r)
-  | OEndExtra => let '(s', r) := end_extra_data enc s in (s', n_res_obs r)
-  | OAddDir n o => let '(s', r) := add_directory enc crc32 s n o in (s', unit_res_obs r)
-  | OSymlink n t o => let '(s', r) := add_symlink enc crc32 s n t o in (s', unit_res_obs r)
-  | OComment c => (Writer.set_comment s c, OL [T "Ok"; T "unit"])
+  | OStartFile n o => call (KStartFile n o)
+  | OWrite d => call (KWrite d)
+  | OStartExtra n o => call (KStartExtra n o)
+  | OStartAligned n o a => call (KStartAligned n o a)
+  | OEndLocal => call KEndLocal
+  | OEndExtra => call KEndExtra
+  | OAddDir n o => call (KAddDir n o)
+  | OSymlink n t o => call (KSymlink n t o)
+  | OComment c => call (KComment c)
   | ORawCopy src idx nm =>
       match open src with
       | Ok ar =>
@@ -438,8 +447,7 @@ Definition run_wop (tbl : list (N * Z * bytes * bytes)) (s : wstate) (op : wop) 
           | Some f =>
               match find_content src f with
               | Ok (ds, _) =>
-                  let raw := take (f_csize f) (drop ds src) in
-                  let '(s', r) := raw_copy enc crc32 s f raw (match nm with Some n => n | None => f_name f end) in (s', unit_res_obs r)
+                  call (KRawCopy f (take (f_csize f) (drop ds src)) (match nm with Some n => n | None => f_name f end))
               | Err e => (s, OL [T "SrcErr"; err_obs e])
               | Panic p => (s, OL [T "PANIC"; site_obs p])
               end
@@ -448,7 +456,7 @@ Definition run_wop (tbl : list (N * Z * bytes * bytes)) (s : wstate) (op : wop) 
       | Err e => (s, OL [T "SrcErr"; err_obs e])
       | Panic p => (s, OL [T "PANIC"; site_obs p])
       end
-  | OFinish => let '(s', r) := finish enc crc32 s in (s', res_obs OB r)
+  | OFinish => call KFinish
   end.
 
 Fixpoint run_wops (tbl : list (N * Z * bytes * bytes)) (s : wstate) (ops : list wop) (acc : list obs) : wstate * list obs :=
@@ -476,8 +484,8 @@ Definition wprog_obs (args : list arg) : obs :=
           let '(s1, outs) := run_wops (wp_enc p) s0 (wp_ops p) [] in
           (* the writer is dropped at the end: finalises unless closed *)
           let finished := existsb (fun o => match o with OFinish => true | _ => false end) (wp_ops p) in
-          let '(s2, dr) := drop_writer (enc_of (wp_enc p)) crc32 s1 in
-          OL [OL outs; unit_res_obs dr; match sink_bytes s2 with Some b => OB b | None => T "SKIP" end]
+          let '(s2, dr) := do_call (enc_of (wp_enc p)) crc32 s1 KDrop in
+          OL [OL outs; wresult_obs dr; match sink_bytes s2 with Some b => OB b | None => T "SKIP" end]
       end
   end.
 
